@@ -120,14 +120,14 @@ def run_roundtrip(args, kind="roundtrip"):
     pid, root, base = args
     sys.path.insert(0, VERIF)
     from sa.main import run_property
-    tmp = roundtrip_copy(root) if kind == "roundtrip" else rename_copy(root)
+    tmp = roundtrip_copy(root) if kind == "roundtrip" else (rename_copy(root) if kind == "rename" else extract_return_copy(root))
     try:
         rc, rep = run_property(pid, "quick", tmp, evidence_dir=os.path.join(tmp, "_ev"), quiet=True)
         refuted = {ob.key for ob in rep.obs if ob.status == "REFUTED"}
         undec = {ob.key for ob in rep.obs if ob.status == "UNDECIDED"}
         b_rc, b_ref, b_und = base
         ok = rc == b_rc and refuted == b_ref and undec == b_und
-        what = "ast.unparse round trip" if kind == "roundtrip" else "renaming all function locals"
+        what = {"roundtrip": "ast.unparse round trip", "rename": "renaming all function locals", "extract-return": "binding every returned expression to a temporary first"}[kind]
         why = f"verdict and keys unchanged after {what}" if ok else f"rc {b_rc}->{rc}; refuted diff {sorted(refuted ^ b_ref)[:4]}; undecided diff {sorted(undec ^ b_und)[:4]}"
         if not ok and rc == 2:
             why += " | " + " ".join(ln for ln in getattr(rep, "output", []) if ln.startswith("ANALYSIS"))[:400]
@@ -153,13 +153,14 @@ def validate(pids, root="/repo", jobs=16, verbose=True):
         futs = [ex.submit(run_mutant, (m, root, base)) for m in mutants]
         futs += [ex.submit(run_roundtrip, (pid, root, base_full[pid])) for pid in pids]
         futs += [ex.submit(run_rename, (pid, root, base_full[pid])) for pid in pids]
+        futs += [ex.submit(run_extract, (pid, root, base_full[pid])) for pid in pids]
         for f in futs:
             results.append(f.result())
     bad = [r for r in results if not r["ok"]]
     if verbose:
         for r in results:
             print(f"selftest {'ok  ' if r['ok'] else 'FAIL'} {r['id']}: {r['why']}")
-        print(f"selftest: {len(results) - len(bad)}/{len(results)} passed ({len(mutants)} mutants, {len(pids)} unparse round trips, {len(pids)} local-rename round trips)")
+        print(f"selftest: {len(results) - len(bad)}/{len(results)} passed ({len(mutants)} mutants, {len(pids)} unparse round trips, {len(pids)} local-rename and {len(pids)} extract-return round trips)")
     return bad, results
 
 
@@ -175,3 +176,51 @@ def main(args):
     props = sorted(f[:-3] for f in os.listdir(os.path.join(VERIF, "props")) if f.startswith("C") and f.endswith(".py"))
     bad, results = validate(props, root=args.root, jobs=args.jobs)
     return 2 if bad else 0
+
+
+# ------------------------------------------------------------------------------------------------
+class _ExtractReturn(ast.NodeTransformer):
+    """`return <expr>`  ->  `_ret_value = <expr>; return _ret_value` for every non-trivial return (the refactoring a
+    debugger-friendly style or a logging line produces); lambdas untouched"""
+    def visit_Lambda(self, node):
+        return node
+
+    def _body(self, body):
+        out = []
+        for st in body:
+            st = self.visit(st)
+            if isinstance(st, ast.Return) and st.value is not None and not isinstance(st.value, (ast.Name, ast.Constant)):
+                out.append(ast.Assign(targets=[ast.Name(id="_ret_value", ctx=ast.Store())], value=st.value, lineno=st.lineno))
+                out.append(ast.Return(value=ast.Name(id="_ret_value", ctx=ast.Load())))
+            else:
+                out.append(st)
+        return out
+
+    def generic_visit(self, node):
+        for f in ("body", "orelse", "finalbody"):
+            if isinstance(getattr(node, f, None), list):
+                setattr(node, f, self._body(getattr(node, f)))
+        if hasattr(node, "handlers"):
+            node.handlers = [self.visit(h) for h in node.handlers]
+        if hasattr(node, "cases"):
+            node.cases = [self.visit(c) for c in node.cases]
+        return node
+
+
+def extract_return_copy(root):
+    tmp = make_copy(root)
+    for dp, dn, fns in os.walk(os.path.join(tmp, "cola")):
+        for f in fns:
+            if f.endswith(".py"):
+                p = os.path.join(dp, f)
+                with open(p) as fh:
+                    tree = ast.parse(fh.read())
+                tree = _ExtractReturn().visit(tree)
+                ast.fix_missing_locations(tree)
+                with open(p, "w") as fh:
+                    fh.write(ast.unparse(tree) + "\n")
+    return tmp
+
+
+def run_extract(args):
+    return run_roundtrip(args, kind="extract-return")
